@@ -17,7 +17,8 @@ BUDGET = {"quick": 50, "thorough": 900}
 RULE = (
     "1-4 jobs with retries=N in 0..4, a failure mask over attempts 1..N+2 (raise or exceed the timeout), per-actor retry policy "
     "= default_retry_policy_factory with seeded parameters or a table-driven function (including 0 and sub-second delays), "
-    "recurring or not, some actors answering with msg.retry()/msg.force_retry(); all three brokers. Per scheduling: number of "
+    "recurring or not, some actors answering with msg.retry()/msg.force_retry(); in 30% of the runs an observer browses pending "
+    "retries through the DELAYED category and gives them back; all three brokers. Per scheduling: number of "
     "actor invocations = min(first successful attempt, N+1); already_tried seen at the k-th delivery = k-1 and never > N unless "
     "a force_retry was recorded; each retry requeue carries already_tried+1 and next_execution_time = call instant + policy(k) "
     "(reference implementation of the policy); attempt k+1 starts no earlier than that instant (1 ms); final place acked / dead / "
@@ -93,7 +94,13 @@ def gen(rng, broker, tier):
         if rng.random() < 0.2:
             j["by_s"] = rng.choice([2, 5, 60])
         jobs.append(j)
-    return {"jobs": jobs, "tasks_limit": rng.choice([1, 2, 4, 1000]),
+    # somebody looks at the pending retries through the DELAYED category and gives each one back (reject, or just by
+    # finishing the consumer): the back-off must survive that
+    observer = None
+    if rng.random() < 0.3:
+        observer = {"at_us": [rng.randint(100_000, 4_000_000) for _ in range(rng.randint(1, 3))], # (a delivered message is returned by its consumer's finish() on the in-memory broker only)
+                    "give_back": rng.choice(["reject", "finish"]) if broker == "mem" else "reject"}
+    return {"jobs": jobs, "tasks_limit": rng.choice([1, 2, 4, 1000]), "observer": observer,
             "knobs": {"step_cost": rng.choice([0, 0, 1, "rand"]),
                       "net": {"lat_lo": 50, "lat_hi": rng.choice([300, 3000]), "frag_p": rng.choice([0, 0.1])}}}
 
@@ -104,10 +111,26 @@ LATE = {"mem": 2_600_000, "redis": 3_200_000, "rabbit": 1_200_000}
 async def _main(sim, sc, out):
     r = env.repid
     b = sc["broker"]
-    world = await World(sim, b, nodes=("w", "p"), buckets="none", knobs=sc.get("knobs")).setup()
+    world = await World(sim, b, nodes=("w", "p", "o") if sc.get("observer") else ("w", "p"), buckets="none", knobs=sc.get("knobs")).setup()
     connw, connp = world.conn("w"), world.conn("p")
     jobs = {j["id"]: j for j in sc["jobs"]}
     state = workload.ActorState(world, jobs)
+
+    async def observe(at_us, give_back):
+        from ..harness import consume_with_timeout
+
+        await asyncio.sleep(at_us / 1e6)
+        mb = world.conn("o").message_broker
+        cons = mb.get_consumer("q0", None, None, r.MessageCategory.DELAYED)
+        await cons.start()
+        res = await consume_with_timeout(cons, 0.3)
+        if res is not None:
+            sim.count("pending-retry-browsed-through-delayed-category")
+            await asyncio.sleep(0.02)
+            if give_back == "reject":
+                await mb.reject(res[0])
+        await cons.finish()
+
     router = workload.build_router(state, [
         {"name": j["name"], "queue": "q0", "msg_dep": True, "policy": j["policy"], "converter": "basic"} for j in sc["jobs"]])
     w = r.Worker(routers=[router], tasks_limit=sc["tasks_limit"], graceful_shutdown_time=5.0, _connection=connw)
@@ -116,6 +139,9 @@ async def _main(sim, sc, out):
     await sim.loop.spawn("p", workload.producer(world, connp, sc["jobs"], enq))
     t0 = sim.clock.us
     wt = sim.loop.spawn("w", w.run())
+    if sc.get("observer"):
+        for at in sc["observer"]["at_us"]:
+            sim.loop.spawn("o", observe(at, sc["observer"]["give_back"]))
     V = out["violations"]
     lat = sc["knobs"]["net"]["lat_hi"] if b != "mem" else 0
     # horizon: every chain's worst case
